@@ -145,6 +145,32 @@ impl<'a> Tape<'a> {
         let n = self.len(max);
         self.bytes(n)
     }
+    /// valid UTF-8 text of at most `max` bytes mixing 1-, 2-, 3- and 4-byte characters; lengths weighted towards max and 255/256
+    pub fn utf8_text(&mut self, max: usize) -> Vec<u8> {
+        let target = match self.weighted(&[4, 3, 3]) {
+            0 => self.below(max.min(24) + 1),
+            1 => self.below(max + 1),
+            _ => {
+                let c = [max, max.saturating_sub(1), 254, 255, 256, 257, 258, 127, 128];
+                c[self.below(c.len())].min(max)
+            }
+        };
+        const PAL: [&str; 12] = ["a", "z", "0", "-", ".", "x", "\u{e9}", "\u{df}", "\u{20ac}", "\u{4e2d}", "\u{1f600}", "\u{10348}"];
+        let seed = self.u64();
+        let mut s = seed | 1;
+        let mut out = Vec::with_capacity(target);
+        loop {
+            s ^= s << 13;
+            s ^= s >> 7;
+            s ^= s << 17;
+            let ch = PAL[(s % PAL.len() as u64) as usize].as_bytes();
+            if out.len() + ch.len() > target {
+                break;
+            }
+            out.extend_from_slice(ch);
+        }
+        out
+    }
     pub fn small_blob(&mut self, max: usize) -> Vec<u8> {
         let n = self.small(max);
         self.bytes(n)
